@@ -75,11 +75,11 @@ theorem add_inserts_exactly (ops : List Op) (t : Nat) :
   add_exact (run_inv Heap.inv_new ops) t
 
 /-- C12.never_early: whenever the watcher section pops (= starts) a future at time `now`, that
-future's fire time is strictly before `now`, and it was the pending future with the least fire time. -/
+future's fire time is not after `now`, and it was the pending future with the least fire time. -/
 theorem never_early (ops : List Op) (now : Nat) (id : Nat) (st : Bool) :
     let h := (run Heap.new ops).1
     (h.step (.popIfDue now)).2 = .popped id st →
-      (∃ f, h.get id = some f ∧ f.fireT < now ∧ f.hasF = true ∧ st = true ∧ id ∈ h.arr ∧
+      (∃ f, h.get id = some f ∧ f.fireT ≤ now ∧ f.hasF = true ∧ st = true ∧ id ∈ h.arr ∧
         ∀ p ∈ h.pending, f.fireT ≤ p.2) ∧
       id ∉ (h.step (.popIfDue now)).1.arr :=
   never_early_h (run_inv Heap.inv_new ops) now id st
